@@ -25,6 +25,12 @@ CHECKS = {
         'with every table index and input read inside bounds (pointer/bounds obligations); a separate spec-level lemma proves dec(enc(s)) == s for all s.',
    note=PROOF_NOTE + 'std::string storage model; ghost let-bindings as total definitions; constant-trip loops unwound with unwinding assertions (complete); round trip = two contracts + lemma, composed by a meta-argument.',
    technique='CBMC code contracts with loop invariants (DFCC) on mechanically lowered code + spec lemma', design='4 C13'),
+ 'C14': dict(
+   text='murmur2_x86_impl and murmur_hash<8> are lowered on every run and proved, with inductive loop contracts over buffers of symbolic length (<= 10^6) at an unconstrained address, equal to reference MurmurHash2 / MurmurHash64A '
+        '(transcribed as ghost code running in lock step); the buffer is a fresh object of exactly length bytes, so any read outside [buffer, buffer+length) fails a pointer obligation; the frame is empty; '
+        'hash_bytes, murmur2_x86 and murmur2_x64 are proved against the callee contracts to pass (buffer, length, seed) through unchanged.',
+   note=PROOF_NOTE + 'Unsigned multiplication is abstracted as an uninterpreted function (sound for the equality proved); x86 unaligned little-endian loads; std::hash<xbasic_fixed_string> not yet under contract (listed in evidence not_reached).',
+   technique='CBMC code contracts with loop invariants and ghost reference code (DFCC) on mechanically lowered code', design='4 C14'),
 }
 NA = {
  'C05': 'variant lifetimes under exceptions, placement-new into a recursive union and visitation tables built from lambdas: no C++ exception/lifetime semantics in CBMC and no faithful mechanical lowering; a hand-written model would be a different technique (DESIGN.md 6)',
